@@ -2,6 +2,7 @@ package mon
 
 import (
 	"bytes"
+	"encoding/json"
 	"fmt"
 	"github.com/z7zmey/php-parser/pkg/ast"
 	"github.com/z7zmey/php-parser/pkg/visitor"
@@ -42,9 +43,10 @@ import (
 // the multiset of dumps equal to the dumps computed in-process.
 
 type c11Job struct {
-	src []byte
-	ver string
-	cb  bool
+	class string
+	src   []byte
+	ver   string
+	cb    bool
 	// shared: the pipeline parses the caller's buffer itself (no private copy) with a Version value that other
 	// pipelines of the batch use at the same time — both are read-only for the library by contract, so the
 	// race detector sees any write to them
@@ -80,7 +82,7 @@ func c11Pipeline(j c11Job, log func(stage int)) string {
 	if pr.Root == nil {
 		return sb.String() + "nil-root"
 	}
-	for _, op := range []string{"print", "dump(failing-writer)", "dump+tokens+positions", "print(failing-writer)", "dump", "traverse(recording)", "resolve"} {
+	for _, op := range []string{"print", "dump(failing-writer)", "dump+tokens+positions", "print(failing-writer)", "dump", "traverse(recording)", "resolve", "dump+positions", "dump+tokens"} {
 		out, p := c13Run(op, pr.Root, src)
 		if p != nil {
 			out = "panic:" + p.Sig
@@ -98,6 +100,80 @@ func c11Pipeline(j c11Job, log func(stage int)) string {
 		sb.WriteString("SOURCE-MODIFIED\n")
 	}
 	return sb.String()
+}
+
+// c11LexemeSoup: many literals and names whose spellings collide under the normalisations a cache key might use
+// (radix prefix stripped, letter case folded, separators / blanks / quotes dropped): the same digits under four
+// radices, one name in three letter cases, one cast in four spellings, one heredoc label with different bodies.
+func c11LexemeSoup(r *core.Rand) []byte {
+	digits := []string{"1" + strings.Repeat("0", r.Range(0, 22)), strings.Repeat("1", r.Range(1, 24)), strings.Repeat("7", r.Range(1, 24)), strings.Repeat("9", r.Range(1, 20)), "8" + strings.Repeat("0", r.Range(14, 16)), "777777777777777777777", "08", "8", "17"}
+	lit := func() string {
+		switch r.Intn(10) {
+		case 0, 1, 2:
+			d := digits[r.Intn(len(digits))]
+			switch r.Intn(5) {
+			case 0:
+				return "0x" + d
+			case 1:
+				if strings.Trim(d, "01") == "" {
+					return "0b" + d
+				}
+			case 2:
+				if strings.Trim(d, "01234567") == "" {
+					return "0" + d
+				}
+			case 3:
+				if len(d) > 2 {
+					return d[:1] + "_" + d[1:]
+				}
+			}
+			return d
+		case 3:
+			return r.Pick("1e3", "1E3", "1.0", "1.00", ".5", "0.5", "1e+3", "10e2")
+		case 4:
+			return r.Pick("'abc'", "\"abc\"", "'ABC'", "\"a\\n\"", "'a\\n'", "\"$abc\"", "\"{$abc}\"", "`abc`")
+		case 5:
+			return r.Pick("foo", "FOO", "Foo", "\\foo", "A\\b", "a\\B", "namespace\\foo") + r.Pick("()", "", "::X", "::x")
+		case 6:
+			return r.Pick("(int)", "(INT)", "( int )", "(integer)", "(bool)", "(boolean)", "(float)", "(double)", "(real)", "(string)", "(binary)") + " $v"
+		case 7:
+			return r.Pick("__LINE__", "__line__", "__Line__", "__CLASS__", "__class__", "TRUE", "true", "NULL", "null")
+		case 8:
+			return r.Pick("$a", "$A", "$abc", "$ABC", "$this", "$THIS", "$$a", "${'a'}")
+		}
+		return "<<<" + r.Pick("A", "A", "'A'", "\"A\"", "a") + "\n" + r.Pick("x", "y", "$v", "A1") + "\n" + r.Pick("A", "A", "a")[:1] + "\n"
+	}
+	var sb strings.Builder
+	sb.WriteString("<?php\n")
+	for i, n := 0, r.Range(10, 80); i < n; i++ {
+		l := lit()
+		if strings.HasPrefix(l, "<<<") {
+			// the closing label must match the opener's
+			lab := strings.Trim(strings.SplitN(l[3:], "\n", 2)[0], "'\"")
+			body := strings.SplitN(l, "\n", 3)[1]
+			l = strings.SplitN(l, "\n", 2)[0] + "\n" + body + "\n" + lab
+			fmt.Fprintf(&sb, "$v%d = %s;\n", i, l)
+			continue
+		}
+		fmt.Fprintf(&sb, "$v%d = %s;\n", i, l)
+	}
+	return []byte(sb.String())
+}
+
+type c11AuxJob struct {
+	Src []byte
+	Ver string
+	Cb  bool
+}
+
+func init() {
+	core.RegisterAux("c11pipeline", func(in []byte) []byte {
+		var j c11AuxJob
+		if json.Unmarshal(in, &j) != nil {
+			return []byte("bad job")
+		}
+		return []byte(c11Pipeline(c11Job{src: j.Src, ver: j.Ver, cb: j.Cb}, func(int) {}))
+	})
 }
 
 func c11Deep(r *core.Rand) []byte {
@@ -120,6 +196,8 @@ func c11Jobs(seed int64, label string, idx, n int) []c11Job {
 		var pc parseCase
 		if r.Chance(1, 8) {
 			pc = parseCase{c11Deep(r), pickVersion(r), "deep"}
+		} else if r.Chance(1, 7) {
+			pc = parseCase{c11LexemeSoup(r), pickVersion(r), "lexeme-soup"}
 		} else if r.Chance(1, 9) {
 			// a long flat operator chain (left-deep tree)
 			var sb strings.Builder
@@ -146,7 +224,7 @@ func c11Jobs(seed int64, label string, idx, n int) []c11Job {
 		if len(pc.Src) > 20000 {
 			pc.Src = pc.Src[:20000]
 		}
-		jobs[i] = c11Job{src: pc.Src, ver: pc.Ver, cb: r.Chance(3, 4)}
+		jobs[i] = c11Job{class: pc.Class, src: pc.Src, ver: pc.Ver, cb: r.Chance(3, 4)}
 	}
 	// same input twice in one batch
 	if n >= 2 && r.Bool() {
@@ -223,6 +301,30 @@ func c11Batch(c *core.Ctx, label string, idx int, instrumented bool) {
 	}
 	if !c11SharedTraverser(c, jobs, procs, instrumented) {
 		return
+	}
+	// "the result obtained when the same work is done alone": one pipeline of the batch is also run by a fresh
+	// process that has done nothing else — a cache that only ever grows gives the same answer again and again
+	// within one process, whatever it has been poisoned with
+	if instrumented {
+		fresh := 0
+		for k, j := range jobs {
+			// one job of every third batch, and up to two lexeme-soup jobs of any batch
+			if !(idx%3 == 0 && k == int(uint(idx/3)%uint(len(jobs)))) && !(j.class == "lexeme-soup" && fresh < 2) {
+				continue
+			}
+			fresh++
+			in, _ := json.Marshal(c11AuxJob{Src: j.src, Ver: j.ver, Cb: j.cb})
+			out, err := core.FreshProcess("c11pipeline", in)
+			if err != nil {
+				c.Inconclusive("fresh-process pipeline could not be run")
+				continue
+			}
+			c.Add("pipelines_compared_with_a_fresh_process", 1)
+			if string(out) != results[k] {
+				c.Violation("concurrent|differs-from-fresh-process|"+c11DiffLine(string(out), results[k]), fmt.Sprintf("pipeline %d of the batch differs from the same pipeline run alone in a fresh process: %s", k, obs.FirstDiff(string(out), results[k])), core.W(j.src, j.ver).With("goroutines", fmt.Sprint(n)).With("class", j.class))
+				return
+			}
+		}
 	}
 	if instrumented {
 		sort.Slice(events, func(a, b int) bool { return events[a].seq < events[b].seq })
